@@ -113,6 +113,12 @@ var c13Pools = map[string][]string{
 	},
 	"k8slog": {"line\n", "part", "", "\n", "a", "ab", "abc", "a\n", "\\n", "\\", "q\"uote\n", "юни\n", "\xff\n", "tab\tx", c13LongStr(40, "x"), c13LongStr(40, "y") + "\n", "n", "\r\n", "\\\n"},
 	"mask":   {"4000 1234 5678 9012", "user@example.com", "xax", "пароль 123", "a", "b", "ab", "aaa", "1", "12345", "card 4000123456789012 end", "", "x1y22z333", "\xff1\xfe", "secret=abc token=def", "🔥123🔥"},
+	// case mappings that change the UTF-8 length (Kelvin sign, Ohm, Angstrom, İ, ẞ shrink; Ⱥ grows;
+	// an invalid byte becomes U+FFFD) at the start / end, lengths around the rule values' sizes
+	"maskci": {
+		"t=4.2\u212a", "\u212a", "\u212a\u212a", "4.2\u212a", "x\u212a", "degree\u212a", "degrees\u212a", "\u212adegrees", "\u2126", "ab\u2126", "\u212b\u212b\u212b", "\u0130", "a\u0130", "\u1e9e", "stra\u1e9e", "\u023a", "\u023ax", "x\u023a\u023a", "\u2c65",
+		"DEGREES", "12 Degrees", "degrees", "degree", "K", "4.2K", "4.2k", "ЯБ", "яб", "\xff", "\xff\xff4.2k", "4.2k\xff", "\xffdegrees", "degrees\xff", "", "k", "AB", "abcdefgh", "ABCDEFG\u212a",
+	},
 	"hashn": {
 		`"abc`, `""a""`, `{{}`, `'\''`, "```x```", `a"b\"c"d`, `"`, `""`, `"""`, `""""`, `"a""`, `""a"`, `'''a''`, "`", "``", "{", "}", "}{", "{}", "{a{b}c}", "[[]", "(()", "([{)]}", `{"a":"b"}`, `"{'[`, `\"`, `x\"y"`, `"x\"`, `"a"'b'` + "`c`",
 		"user@example.com", "https://a.b/c?d=e", "host.example.com", "/var/log/x.log", "123e4567-e89b-12d3-a456-426614174000", "d41d8cd98f00b204e9800998ecf8427e", "2023-10-30T13:35:33Z", "10.0.0.1", "5m30s", "0xdeadbeef", "3.14", "42", "true", "a1b2", "x 42 y", "µs", "-", "1.2.3.4.5", "\xff\"\xfe",
@@ -131,6 +137,7 @@ var c13FuzzToks = map[string][]string{
 	"json":       {"{", "}", "[", "]", "\"", ":", ",", "a", "1", ".", "-", "e", " ", "\\", "u", "null", "true", "\"a\":", "\n"},
 	"time":       {"1", "9", "0", ".", "-", ":", "T", "Z", "+", " ", "2023", "Jan", "/", "e"},
 	"mask":       {"a", "b", "x", "1", "2", " ", "я", "\xff", "@", "."},
+	"maskci":     {"\u212a", "\u2126", "\u212b", "\u0130", "\u1e9e", "\u023a", "degrees", "4.2", "k", "K", "t=", "\xff", "я", "AB"},
 	"csv":        {",", "\"", "\n", "a", " ", "\r", ";", "\"\""},
 	"syslog5424": {"<", "34", ">", "1", " ", "-", "[", "]", "\"", "=", "a", "\\", "2003-10-11T22:14:15.003Z"},
 	"syslog3164": {"<", "34", ">", "Oct", " ", "11", "22:14:15", "h", "a", "[", "]", ":", "1"},
@@ -392,6 +399,9 @@ func c13Systematic(plugin string) []c13Cfg {
 			mk(m{"masks": []any{m{"re": `(\d)`, "groups": []any{0}, "process_fields": []any{"a"}}, m{"re": `(a)`, "groups": []any{0}, "ignore_fields": []any{"b"}}}}, "mask", "a", "b"),
 			mk(m{"masks": []any{m{"match_rules": []any{m{"rules": []any{m{"values": []any{"a", "1"}, "mode": "contains"}}}}, "applied_field": "af"}}}, "mask", "a"),
 			mk(m{"masks": []any{m{"re": `(\d)`, "groups": []any{0}, "match_rules": []any{m{"cond": "or", "rules": []any{m{"values": []any{"x"}, "mode": "prefix", "case_insensitive": true}, m{"values": []any{"3"}, "mode": "suffix", "invert": true}}}}}}}, "mask", "a"),
+			mk(m{"masks": []any{m{"match_rules": []any{m{"rules": []any{m{"values": []any{"degrees"}, "mode": "suffix", "case_insensitive": true}}}}, "applied_field": "af"}}}, "maskci", "a"),
+			mk(m{"masks": []any{m{"match_rules": []any{m{"rules": []any{m{"values": []any{"degrees", "k"}, "mode": "prefix", "case_insensitive": true}}}}, "applied_field": "af"}}}, "maskci", "a"),
+			mk(m{"masks": []any{m{"match_rules": []any{m{"rules": []any{m{"values": []any{"4.2k"}, "mode": "contains", "case_insensitive": true, "invert": true}}}}, "applied_field": "af"}}}, "maskci", "a"),
 			mk(m{"masks": []any{m{"re": `(\d)`, "groups": []any{0}, "do_if": m{"op": "equal", "field": "level", "values": []any{"info"}}}}}, "mask", "a", "level"),
 		)
 	case "modify":
@@ -548,6 +558,12 @@ func c13RandomCfg(plugin string, r *hx.Rng) c13Cfg {
 			mk["cut_values"] = true
 		case 2:
 			mk["max_count"] = r.Range(1, 3)
+		}
+		if r.Chance(2, 3) {
+			vals := [][]any{{"k"}, {"degrees"}, {"ab", "degrees"}, {"\u212a"}, {"4.2k", "x"}, {"\u023ax"}, {"я"}, {"abcdefgh", "b"}}[r.Intn(8)]
+			rule := m{"values": vals, "mode": []string{"prefix", "contains", "suffix"}[r.Intn(3)], "case_insensitive": r.Chance(2, 3), "invert": r.Chance(1, 4)}
+			mk["match_rules"] = []any{m{"cond": []string{"and", "or"}[r.Intn(2)], "rules": []any{rule, m{"values": []any{"a", "ZZ"}, "mode": []string{"prefix", "contains", "suffix"}[r.Intn(3)], "case_insensitive": r.Bool()}}}}
+			c.pool = []string{"maskci", "mask"}
 		}
 		c.js = m{"masks": []any{mk, m{"re": "(" + c13Res[r.Intn(len(c13Res))] + ")", "groups": []any{0}}}, "skip_mismatched": r.Bool()}
 		if r.Bool() {
@@ -919,7 +935,7 @@ func genC13(w *bufio.Writer, rng *hx.Rng, tier string) {
 	// from event fields (countEvent), real Propagate / Spawn / stream time-outs
 	nPipe := 20
 	if full {
-		nPipe = 300
+		nPipe = 120
 	}
 	for _, p := range c13Plugins {
 		sys := c13Systematic(p)
@@ -973,4 +989,5 @@ func genC13(w *bufio.Writer, rng *hx.Rng, tier string) {
 		}
 	}
 	genC13Cores(w, rng, tier)
+	genC13Mrule(w, rng, tier)
 }
